@@ -51,6 +51,11 @@ func (i Inconclusive) Error() string { return "INCONCLUSIVE: " + i.Msg }
 
 func inconclusive(format string, a ...interface{}) { panic(Inconclusive{fmt.Sprintf(format, a...)}) }
 
+type lateEv struct {
+	ev   Ev
+	step int
+}
+
 // running is the World of the case being executed (for clean-up when a case
 // is abandoned by an Inconclusive panic during shrinking).
 var running *World
@@ -75,8 +80,10 @@ type World struct {
 	held      map[int]int
 	sentN     int
 	plugged   bool
-	removeNow bool // inside RemoveNow
-	ovfErrs   int  // ErrEventOverflow values received for the current overflow burst
+	removeNow bool     // inside RemoveNow
+	prop      string   // property the case is run for
+	late      []lateEv // events not delivered by the quiescent point at which they were due
+	ovfErrs   int      // ErrEventOverflow values received for the current overflow burst
 
 	pending                []Ev   // expected since last sync
 	pendOpt                []bool // parallel to pending: may legitimately be dropped (watch removed while pending)
@@ -237,7 +244,20 @@ func (w *World) find(class, format string, a ...interface{}) {
 	w.Findings = append(w.Findings, Finding{class, w.step, fmt.Sprintf(format, a...)})
 }
 
-func (w *World) Failed() bool { return len(w.Findings) > 0 }
+// Failed: a finding ends the case. The order check (C03) carries on past
+// events that are merely missing so far: it wants to see whether they turn up
+// later, overtaken by the events of later operations.
+func (w *World) Failed() bool {
+	if w.prop != "C03" {
+		return len(w.Findings) > 0
+	}
+	for _, f := range w.Findings {
+		if f.Class != FMissing {
+			return true
+		}
+	}
+	return false
+}
 
 func errstr(err error) string {
 	if err == nil {
@@ -1104,6 +1124,20 @@ func (w *World) compare(seg Segment) {
 	if len(extra) > 0 {
 		w.find(FExtra, "delivered but not expected: %v%s", extra, ctx())
 	}
+	// an event that was due before an earlier quiescent point and turns up now
+	// has been overtaken by the events of everything done since
+	for _, x := range extra {
+		for i, m := range w.late {
+			if m.ev.Op == x.Op && m.ev.Name == x.Name {
+				w.find(FOrder, "%v was due before step %d and is delivered only now, after the events of later operations%s", x, m.step, ctx())
+				w.late = append(w.late[:i:i], w.late[i+1:]...)
+				break
+			}
+		}
+	}
+	for _, m := range missing {
+		w.late = append(w.late, lateEv{m, w.step})
+	}
 	for _, m := range missing {
 		for _, x := range extra {
 			if m.Op == x.Op && m.Name != x.Name {
@@ -1586,6 +1620,7 @@ func Run(c *Case) (w *World) {
 		panic(fmt.Sprintf("setting up the case: %v", err))
 	}
 	running = w
+	w.prop = c.Prop
 	var polled []Ev
 	synced := true
 	for i, s := range c.Steps {
